@@ -6730,6 +6730,7 @@ bool SoPlexBase<R>::setRealParam(const RealParam param, const Real value, const 
       if(_rationalLP)
          _rationalLP->changeObjOffset(value);
 
+      _invalidateSolution();
       break;
 
    case SoPlexBase<R>::MIN_MARKOWITZ:
